@@ -51,6 +51,15 @@ def get_locale_category(category: int) -> str:
     return _locale
 
 
+def get_lc_collate() -> str:
+    """
+    Gets the LC_COLLATE locale of the process. Waits for the evaluations of other
+    threads that have temporarily changed it for using a locale collation.
+    """
+    with _locale_collate_lock:
+        return locale.setlocale(locale.LC_COLLATE, None)
+
+
 def unicode_codepoint_strcoll(s1: str, s2: str) -> int:
     return 0 if s1 == s2 else -1 if s1 < s2 else 1
 
